@@ -1,4 +1,5 @@
 import AikenVerif.Lemmas.ShrinkPrng
+import AikenVerif.Lemmas.ShrinkFuel
 /-!
 # C16 — Property tests are reproducible and their counterexamples are real
 
@@ -6,7 +7,9 @@ Theorems about M-SHRINK (`Model/Shrink.lean`), the transliteration of
 `Counterexample::{simplify, consider, replace, binary_search_replace}`, `Cache::get`,
 the PRNG replay protocol, `run_once`/`run_n_times` and `TestResult::is_success`.
 All statements quantify over every `run : List UInt8 → Status α`, every initial counterexample and
-every fuel `F ≥ fuelBound c₀` (for which `simplify_terminates` shows the result exists).
+every fuel `F`: `simplify_terminates` shows the result exists for `F ≥ fuelBound c₀`,
+`simplify_fuel_independent` that it is the same for all such `F`, and the other theorems speak
+about any `ok` result, whatever the fuel.
 The tie to the Rust code is the correspondence `c16-shrink` (real `simplify` and real `Cache` vs
 this model on the same interpreted `run` functions) and the end-to-end check `c16-e2e`.
 -/
@@ -43,18 +46,31 @@ theorem fuelBound_le (c : Choices) : fuelBound c < 256 ^ (c.length + 1) + 2 * c.
     | succ n ih => simp only [geo, Nat.pow_succ] at *; omega
   omega
 
+/-- the result does not depend on the fuel once there is enough of it: "the" result of `simplify` -/
+theorem simplify_fuel_independent (run : Choices → Status α) (s : CE α) (F₁ F₂ : Nat)
+    (h₁ : fuelBound s.choices ≤ F₁) (h₂ : fuelBound s.choices ≤ F₂) :
+    simplify run F₁ s = simplify run F₂ s := by
+  have ⟨s', h, _⟩ := simplify_ok run (fuelBound s.choices) s (Nat.le_refl _)
+  rw [simplify_mono run _ F₁ h₁ s s' h, simplify_mono run _ F₂ h₂ s s' h]
+
+/-- any `ok` result, whatever the fuel, is reached by `Steps` -/
+theorem steps_of_ok (run : Choices → Status α) (s s' : CE α) (F : Nat)
+    (h : simplify run F s = .ok s') : Steps run s s' := by
+  have h' := simplify_mono run F (max F (fuelBound s.choices)) (Nat.le_max_left _ _) s s' h
+  have ⟨s'', h'', hst⟩ := simplify_ok run (max F (fuelBound s.choices)) s (Nat.le_max_right _ _)
+  rw [h'] at h''
+  cases h''
+  exact hst
+
 /-! ## The reported counterexample is real -/
 
 /-- With the cache's own assumption (`PrefixStable`): if the starting pair falsifies the property
 (`run c₀ = keep v₀`) and the cache holds only true answers, so does the simplified pair. -/
 theorem counterexample_real (run : Choices → Status α) (hps : PrefixStable run) (s s' : CE α)
-    (F : Nat) (hF : fuelBound s.choices ≤ F) (hdb : DbSound run s.cache)
+    (F : Nat) (hdb : DbSound run s.cache)
     (h₀ : run s.choices = .keep s.value) (h : simplify run F s = .ok s') :
-    run s'.choices = .keep s'.value := by
-  have ⟨s'', h', hst⟩ := simplify_ok run F s hF
-  rw [h] at h'
-  cases h'
-  exact (Steps.real run hps hst ⟨hdb, h₀⟩).2
+    run s'.choices = .keep s'.value :=
+  (Steps.real run hps (steps_of_ok run s s' F h) ⟨hdb, h₀⟩).2
 
 /-- The same WITHOUT any hypothesis on `run` (fuzzers that look at the replay cursor, hash the
 whole sequence, …), starting from the empty cache as `run_once` does: `simplify` only ever
@@ -62,12 +78,10 @@ queries sequences no longer than the current one and accepts every `Keep` answer
 `Keep` can never be served.  (What prefix-instability can cost is a missed shrink, see
 `prefix_stable_needed`.) -/
 theorem counterexample_real_unconditional (run : Choices → Status α) (c₀ : Choices) (v₀ : α)
-    (s' : CE α) (F : Nat) (hF : fuelBound c₀ ≤ F) (h₀ : run c₀ = .keep v₀)
+    (s' : CE α) (F : Nat) (h₀ : run c₀ = .keep v₀)
     (h : simplify run F { value := v₀, choices := c₀ } = .ok s') :
     run s'.choices = .keep s'.value := by
-  have ⟨s'', h', hst⟩ := simplify_ok run F { value := v₀, choices := c₀ } hF
-  rw [h] at h'
-  cases h'
+  have hst := steps_of_ok run _ s' F h
   have h0 : Real' run ({ value := v₀, choices := c₀ } : CE α) :=
     ⟨fun _ _ hk => by simp at hk, fun _ _ hk => by simp at hk, h₀⟩
   exact (Steps.real' run hst h0).2.2
@@ -76,12 +90,8 @@ theorem counterexample_real_unconditional (run : Choices → Status α) (c₀ : 
 
 /-- for EVERY `run`: the simplified choice sequence is `≤` the initial one in shortlex order -/
 theorem never_larger (run : Choices → Status α) (s s' : CE α) (F : Nat)
-    (hF : fuelBound s.choices ≤ F) (h : simplify run F s = .ok s') :
-    shortlexLe s'.choices s.choices = true := by
-  have ⟨s'', h', hst⟩ := simplify_ok run F s hF
-  rw [h] at h'
-  cases h'
-  exact Steps.le run hst
+    (h : simplify run F s = .ok s') : shortlexLe s'.choices s.choices = true :=
+  Steps.le run (steps_of_ok run s s' F h)
 
 /-- `shortlexLe` is the order meant: shorter, or equally long and lexicographically `≤`; it is a
 partial order with a strictly monotone rank (so "no larger" is not vacuous) -/
